@@ -537,8 +537,10 @@ class RSTWriter(object):
         if isinstance(file, str):
             # Strip leading/trailing whitespace, so we don't end up with '. '
             # as a file, I have seen it happen before
+            # Always write UTF-8 (what Sphinx reads), not whatever encoding
+            # the locale of this process happens to prefer
             with open(file.strip(),
-                      'w') as f:
+                      'w', encoding="utf-8") as f:
                 f.write(str(self))
         else:
             # Might be invalid object, checking to make sure it's file-like
